@@ -351,6 +351,9 @@ def partial_probe(idx):
     Runs in a child process (its own connections); monitor only: what a failing multi-item operation leaves behind is C03's business."""
     kind = ['sql', 'file', 'dir'][idx % 3]
     opname = ['update-bad-later-item', 'popkeys-missing-later-key', 'update-then-clear', 'clear'][(idx // 3) % 4]
+    if idx >= 12:
+        # update(another archive): the entries of an archive that encodes its files differently (compressed / json / plain) arrive readable
+        kind = 'dir'; opname = ['update-from-compressed-archive', 'update-from-json-archive', 'update-from-plain-archive-into-compressed'][idx % 3]
     tmp = scratch_dir('kpp')
     code = r'''
 import sys, os, json
@@ -369,12 +372,25 @@ try:
     if opname == 'update-bad-later-item': a.update([('c', 3), ('d', bad), ('e', 5)])
     elif opname == 'popkeys-missing-later-key': a.popkeys(['a', 'nope', 'b'])
     elif opname == 'update-then-clear': a.update({'c': 3}); a.clear()
+    elif opname.startswith('update-from'):
+        if opname == 'update-from-plain-archive-into-compressed':
+            a = ka.dir_archive(os.path.join(tmp, 'pdz'), cached=False, compression=3); a['a'] = 1; a['b'] = 2
+            S = ka.dir_archive(os.path.join(tmp, 'src'), cached=False)
+            mk = lambda: ka.dir_archive(os.path.join(tmp, 'pdz'), cached=False, compression=3)
+        else:
+            S = ka.dir_archive(os.path.join(tmp, 'src'), cached=False, **(dict(compression=3) if 'compressed' in opname else dict(protocol='json')))
+        S['c'] = [1, 2.5]; S['d'] = 'text'
+        a.update(S)
+        out['want'] = sorted((repr(k), repr(v)) for k, v in dict(a=1, b=2, c=[1, 2.5], d='text').items())
     else: a.clear()
     out['exc'] = None
 except Exception as e:
     out['exc'] = type(e).__name__
-out['W'] = sorted((repr(k), repr(v)) for k, v in a.items())
-out['F'] = sorted((repr(k), repr(v)) for k, v in mk().items())
+def view(h):
+    try: return sorted((repr(k), repr(v)) for k, v in h.items())
+    except Exception as e: return 'EXC %s: %s' % (type(e).__name__, str(e)[:60])
+out['W'] = view(a)
+out['F'] = view(mk())
 print(json.dumps(out))
 '''
     try:
@@ -383,7 +399,10 @@ print(json.dumps(out))
         if r.returncode != 0: return dict(viol=[], err='partial probe child failed: ' + r.stderr[-600:])
         out = json.loads(r.stdout.strip().splitlines()[-1])
         viol = []
-        if out['W'] != out['F']:
+        if out.get('want') is not None and (out['W'] != out['want'] or out['F'] != out['want']):
+            viol.append(dict(prop='C04', i=0, sig=dict(backend=kind, codec='pickle', view='F', what='entries-taken-over-from-another-archive-unreadable', cause='none', bytecode=False, op=opname),
+                             msg='dir archive, %s: the handle reads %r, a fresh handle %r, stored %r' % (opname, out['W'], out['F'], out['want']), cfg=dict(partial=idx), ops=[]))
+        elif out['W'] != out['F']:
             viol.append(dict(prop='C04', i=0, sig=dict(backend=kind, codec='pickle', view='F', what='fresh-handle-differs-from-the-writing-handle', cause='none', bytecode=False, op=opname),
                              msg='%s archive, %s (raised %s): the handle that did it reads %r, a fresh handle on the same store reads %r' % (kind, opname, out['exc'], out['W'], out['F']),
                              cfg=dict(partial=idx), ops=[]))
@@ -443,7 +462,7 @@ def explore(prop, tier):
     with ThreadPool(NPROC) as p:
         trs = p.map(work, [(tier, i) for i in range(NTRACES[tier])])
         fts = p.map(fwork, [(tier, i) for i in range(NFUNC[tier])])
-        pps = p.map(partial_probe, list(range(12))) + p.map(tables_probe, list(range(3)))
+        pps = p.map(partial_probe, list(range(15))) + p.map(tables_probe, list(range(3)))
     errors = [t['err'] for t in trs if t['err']] + [t['err'] for t in fts if t['err']]
     trs = [t for t in trs if not t['err']]; fts = [t for t in fts if not t['err']]
     divs, viols, tags, nontriv = _analyse(prop, trs)
